@@ -156,4 +156,17 @@ theorem whds_sum_key (m0 V : K) (act : List (K × K)) (h0 : m0 ≠ 0) (hw : Whds
     rw [ih hr]; field_simp; ring
 
 
+theorem msum_map_snd (l : List (K × K)) (f : K × K → K) :
+    msum (l.map (fun p => (p.1, f p))) = msum l := by
+  simp [msum, List.map_map, Function.comp_def]
+
+theorem hybAcc_eq (c mt : K) (l : List (K × K)) :
+    hybAcc c mt l = (c + mxsum l, mt + msum l) := by
+  induction l generalizing c mt with
+  | nil => simp [hybAcc, mxsum, msum]
+  | cons a r ih =>
+    obtain ⟨m, x⟩ := a
+    simp only [hybAcc, sc_hadd, sc_hmul, ih]
+    simp [mxsum, msum]; constructor <;> ring
+
 end RV.Transform
